@@ -14,7 +14,7 @@ from pathlib import Path
 from .. import extract, parsing as P, trees as T
 from ..common import Ctx, VERIF
 
-MODULES = ["Ahbicht.Properties.Grammar", "Ahbicht.Properties.C01"]
+MODULES = ["Ahbicht.Properties.Grammar", "Ahbicht.Properties.C01", "Ahbicht.Properties.C01Every"]
 CORPUS = VERIF / "corpus" / "C01.jsonl"
 
 
